@@ -77,7 +77,7 @@ theorem c02_type_condition (S : Schema) (rt cond : String) (o t : TypeDef)
         | exact absurd this (by decide)
         | (by_cases m : cond ∈ o.implements
            · have := hmem m; rw [hkind] at this; exact absurd this (by decide)
-           · simp [e, m, k2])
+           · simp [e, k2])
     · by_cases m : cond ∈ o.implements
       · have := hmem m; rw [hkind] at this
         first
@@ -120,14 +120,15 @@ theorem c02_errors_never_lost (c : Model.ExecDynamic.Ctx) (hD : c.D.nullValueNot
     result coercion (same value on success, a field error otherwise) — every schema, value, path. -/
 theorem c02_builtin_leaf_checked (c : Model.ExecDynamic.Ctx) (hD : c.D.builtinScalarUnchecked = false)
     (rec : String → Nat → List Sel → List PathSeg → Res) (n : String) (t : TypeDef) (v : GValue)
-    (ht : c.S.find? n = some t) (hk : t.kind = .scalar) (hn : t.name = n) (hb : isBuiltin n = true)
+    (ht : c.S.find? n = some t) (hk : t.kind = .scalar) (hn : t.name = n) (hb : isBuiltin n = true) (hv : v ≠ .null)
     (ss : List Sel) (path : List PathSeg) (pos : Pos) :
     resolveNamed c rec n (.leaf v) ss path pos =
       match AGV.Spec.Exec.serializeLeaf c.S n v with
       | some v' => { val := some v' }
       | none => { val := none, errs := [⟨path, pos⟩] } := by
   unfold resolveNamed
-  simp only [ht, hk, scalarCheck, hn, hb, hD, if_true, Bool.false_eq_true, if_false]
+  have hv' : isNullV v = false := by cases v <;> simp_all [isNullV]
+  simp only [ht, hk, scalarCheck, hn, hb, hD, hv', if_true, Bool.false_eq_true, if_false]
   cases AGV.Spec.Exec.serializeLeaf c.S n v <;> simp [errAt]
 
 -- ------------------------------------------------------------------ witnesses (also in corpus/C02, known_findings.json)
